@@ -1,54 +1,11 @@
 import FatVerif.Proofs.SlotTreeImg6
 import FatVerif.Props.C01tree
 /-!
-# Slot trees on a device image, part 7: one call and histories of calls through the root handle
-
-`Call` — `open_dir`, `open_file`, listing, `create_file`, issued through the root directory handle with paths of any
-depth.  `byte_step`: on a device whose image holds the slot tree, the byte-level program of a call ends with the
-outcome of `stepSlot` and leaves a device whose image holds the slot tree after the call (`ImgTreeW` re-established;
-for the read-only calls the volume is untouched).  `ByteRun`: a history of such steps.
+# Slot trees on a device image, part 7: helper facts for calls (trees after failing calls, the read-only outcomes)
 -/
 namespace FatVerif
 namespace SlotTreeImg
 open Lfn DirSlots DirAlias SlotTree DirSim FatVerif.FileSim FatVerif.Fat
-
-/-- calls through the root directory handle -/
-inductive Call where
-  | openDir (path : String)
-  | openFile (path : String)
-  | list
-  | createFile (path : String)
-
-def Call.op : Call → Spec.Op
-  | .openDir p => .openDir [] p
-  | .openFile p => .openFile [] p
-  | .list => .list []
-  | .createFile p => .createFile [] p
-
-def errOf {α} : Except Err α → Option Err
-  | .ok _ => none
-  | .error e => some e
-
-/-- the byte-level program of a call, run on `d`, ends with outcome `o` (`none` = success) on the device `d'` -/
-def ByteOut (env : Env) (fuel : Nat) (d : Dev) : Call → Option Err → Dev → Prop
-  | .openDir p, o, d' => ∃ r, run (openDir env fuel (rootDirStream d.fs) p) d = (r, d') ∧ errOf r = o
-  | .openFile p, o, d' => ∃ r, run (openFile env fuel (rootDirStream d.fs) p) d = (r, d') ∧ errOf r = o
-  | .list, o, d' => ∃ r, run (listDir (rootDirStream d.fs)) d = (r, d') ∧ errOf r = o
-  | .createFile p, o, d' => ∃ r, run (createFile env fuel (rootDirStream d.fs) p) d = (r, d') ∧ errOf r = o
-
-/-- the resource / scope hypotheses of one call (besides those of the specification side) -/
-def CallOk (up : Char → List Char) (d : Dev) (t : Node) (fuel : Nat) : Call → Prop
-  | .openDir p => p.toList.length < fuel
-  | .openFile p => p.toList.length < fuel
-  | .list => True
-  | .createFile p => p.toList.length < fuel ∧
-      (∀ q, walkDirsS up t [] (pathParts p).1 = .ok q → q = []) ∧
-      (∀ slots ch, t = .dir slots ch → HasRoomRoot d slots (pathParts p).2) ∧
-      (createS up 70000 t [] p false (sfnStamp d.fs d.clock none)).out ≠ .error .hang
-
-/-- the slot tree's result for a call issued on the device `d` (its clock and geometry stamp a new entry) -/
-def modelStep (up : Char → List Char) (d : Dev) (t : Node) (c : Call) : Res :=
-  stepSlot up 70000 t c.op (sfnStamp d.fs d.clock none)
 
 
 theorem openS_tree (up : Char → List Char) (t : Node) (cwd : List String) (p : String) (w : Bool) :
@@ -169,132 +126,6 @@ theorem open_file_out (I : ImgTree d up t cl) (hwf : TreeWf up t) (hup : DotSafe
 
 end openout
 
-section step
-variable {d : Dev} {up : Char → List Char} {t : Node} {cl : List String → Option Nat}
-
-theorem outErr_of_ok {r : Res} {rows} (h : r.out = .ok rows) : outErr r = none := by unfold outErr; rw [h]
-theorem outErr_of_err {r : Res} {e} (h : r.out = .error e) : outErr r = some e := by unfold outErr; rw [h]
-
-/-- **one call at byte level**: outcome of `stepSlot`, and the image afterwards holds the tree afterwards -/
-theorem byte_step (W : ImgTreeW d up t cl) (hwf : TreeWf up t) (hup : DotSafe up) (env : Env) (henv : env.upper = up)
-    (fuel : Nat) (c : Call) (hc : CallOk up d t fuel c) (hroot : ∃ s ch, t = .dir s ch) :
-    ∃ d', ByteOut env fuel d c (outErr (modelStep up d t c)) d' ∧ VolStep d d' ∧
-      ImgTreeW d' up (modelStep up d t c).tree cl ∧ d'.clock = d.clock := by
-  obtain ⟨s0, c0, ht⟩ := hroot
-  have I := W.toImgTree
-  have hden : Den d up t cl [] (rootDirStream d.fs) := den_root I s0 c0 ht
-  cases c with
-  | openDir p =>
-    obtain ⟨o1, o2⟩ := open_dir_out I hwf hup env henv hden p fuel hc
-    unfold modelStep Call.op
-    simp only [stepSlot]
-    cases hout : (openS up t [] p true).out with
-    | ok rows =>
-      obtain ⟨de, hr⟩ := o1 rows hout
-      obtain ⟨d', hrun, hs⟩ := hr d (SameVol.refl d)
-      have htree : (openS up t [] p true).tree = t := openS_tree _ _ _ _ _
-      exact ⟨d', ⟨_, hrun, by rw [outErr_of_ok hout]; rfl⟩, VolStep.of_sameVol hs,
-        by rw [htree]; exact W.of_sameVol hs, run_clock _ _ _ _ hrun⟩
-    | error e =>
-      obtain ⟨d', hrun, hs⟩ := o2 e hout d (SameVol.refl d)
-      have htree : (openS up t [] p true).tree = t := openS_tree _ _ _ _ _
-      exact ⟨d', ⟨_, hrun, by rw [outErr_of_err hout]; rfl⟩, VolStep.of_sameVol hs,
-        by rw [htree]; exact W.of_sameVol hs, run_clock _ _ _ _ hrun⟩
-  | openFile p =>
-    obtain ⟨o1, o2⟩ := open_file_out I hwf hup env henv hden p fuel hc
-    unfold modelStep Call.op
-    simp only [stepSlot]
-    cases hout : (openS up t [] p false).out with
-    | ok rows =>
-      obtain ⟨de, hr⟩ := o1 rows hout
-      obtain ⟨d', hrun, hs⟩ := hr d (SameVol.refl d)
-      have htree : (openS up t [] p false).tree = t := openS_tree _ _ _ _ _
-      exact ⟨d', ⟨_, hrun, by rw [outErr_of_ok hout]; rfl⟩, VolStep.of_sameVol hs,
-        by rw [htree]; exact W.of_sameVol hs, run_clock _ _ _ _ hrun⟩
-    | error e =>
-      obtain ⟨d', hrun, hs⟩ := o2 e hout d (SameVol.refl d)
-      have htree : (openS up t [] p false).tree = t := openS_tree _ _ _ _ _
-      exact ⟨d', ⟨_, hrun, by rw [outErr_of_err hout]; rfl⟩, VolStep.of_sameVol hs,
-        by rw [htree]; exact W.of_sameVol hs, run_clock _ _ _ _ hrun⟩
-  | list =>
-    obtain ⟨⟨slots, ch, hg⟩, hs⟩ := hden
-    obtain ⟨V, dots, k, hI, hr⟩ := listDir_den I [] _ slots ch hg hs
-    obtain ⟨d', hrun, hsv⟩ := hr d (SameVol.refl d)
-    unfold modelStep Call.op
-    simp only [stepSlot]
-    have hl : listS up t [] = ⟨t, .ok ((listing slots).map fun e => (entryName e, Lfn.isDir e.sfn))⟩ := by
-      unfold listS; rw [hg]
-    rw [hl]
-    exact ⟨d', ⟨_, hrun, rfl⟩, VolStep.of_sameVol hsv, W.of_sameVol hsv, run_clock _ _ _ _ hrun⟩
-  | createFile p =>
-    obtain ⟨hf, hlast, hroom, hnh⟩ := hc
-    obtain ⟨o1, o2⟩ := create_file_root_img W hwf hup env henv [] _ hden p fuel hf hlast hroom hnh
-    unfold modelStep Call.op
-    simp only [stepSlot]
-    cases hout : (createS up 70000 t [] p false (sfnStamp d.fs d.clock none)).out with
-    | ok rows =>
-      obtain ⟨h, d', hrun, hs, hW⟩ := o2 rows hout
-      exact ⟨d', ⟨_, hrun, by rw [outErr_of_ok hout]; rfl⟩, hs, hW, run_clock _ _ _ _ hrun⟩
-    | error e =>
-      obtain ⟨d', hrun, hs⟩ := o1 e hout
-      have htree : (createS up 70000 t [] p false (sfnStamp d.fs d.clock none)).tree = t :=
-        createS_err_tree _ _ _ _ _ _ _ e hout
-      exact ⟨d', ⟨_, hrun, by rw [outErr_of_err hout]; rfl⟩, VolStep.of_sameVol hs,
-        by rw [htree]; exact W.of_sameVol hs, run_clock _ _ _ _ hrun⟩
-
-end step
-
-/-! ## the tree after a call still has a directory as its root; no call of this kind ends in `hang` unnoticed -/
-
-theorem addEntry_isDir (units sfn : List Nat) (child n : Node) : (addEntry units sfn child n).isDir = n.isDir := by
-  cases n <;> rfl
-
-theorem createFinal_isDir (up : Char → List Char) (fuel : Nat) (t : Node) (p : List String)
-    (slots : List (List Nat)) (name : String) (w : Bool) (stamp : List Nat) :
-    (createFinal up fuel t p slots name w stamp).tree.isDir = t.isDir := by
-  unfold createFinal
-  repeat' split
-  all_goals first | rfl | exact updS_isDir _ _ _ (fun _ => addEntry_isDir _ _ _ _)
-
-theorem createS_isDir (up : Char → List Char) (fuel : Nat) (t : Node) (cwd : List String) (path : String)
-    (w : Bool) (stamp : List Nat) : (createS up fuel t cwd path w stamp).tree.isDir = t.isDir := by
-  unfold createS
-  repeat' split
-  all_goals first | rfl | exact createFinal_isDir _ _ _ _ _ _ _ _
-
-theorem modelStep_isDir (up : Char → List Char) (d : Dev) (t : Node) (c : Call) :
-    (modelStep up d t c).tree.isDir = t.isDir := by
-  cases c with
-  | openDir p => exact congrArg Node.isDir (openS_tree _ _ _ _ _)
-  | openFile p => exact congrArg Node.isDir (openS_tree _ _ _ _ _)
-  | list => unfold modelStep Call.op; simp only [stepSlot, listS]; repeat' split <;> rfl
-  | createFile p => exact createS_isDir _ _ _ _ _ _ _
-
-theorem isDir_iff_dir (t : Node) : t.isDir = true ↔ ∃ s c, t = .dir s c := by
-  cases t with
-  | file b => simp [Node.isDir]
-  | dir s c => simp [Node.isDir]
-
-theorem openS_no_hang (up : Char → List Char) (t : Node) (cwd : List String) (p : String) (w : Bool) :
-    (openS up t cwd p w).out ≠ .error .hang := by
-  rw [openS_eq]
-  cases hres : openRes up t cwd (pathParts p) with
-  | error e =>
-    intro h
-    have : e = .hang := by simpa [fail] using h
-    exact openRes_err hres this
-  | ok pn =>
-    obtain ⟨_, n⟩ := pn
-    simp only
-    split <;> simp [fail, done]
-
-theorem modelStep_no_hang (up : Char → List Char) (d : Dev) (t : Node) (fuel : Nat) (c : Call)
-    (hc : CallOk up d t fuel c) : (modelStep up d t c).out ≠ .error .hang := by
-  cases c with
-  | openDir p => exact openS_no_hang _ _ _ _ _
-  | openFile p => exact openS_no_hang _ _ _ _ _
-  | list => unfold modelStep Call.op; simp only [stepSlot, listS]; repeat' split <;> simp [fail]
-  | createFile p => exact hc.2.2.2
 
 end SlotTreeImg
 end FatVerif
